@@ -35,7 +35,7 @@ PROGRAMS = [
     ('two-stacks', '%s 흑.... 형.. 항... 흑... 항. 항..' % P65),
 ]
 
-D15 = ['n', 'p', 'r', 's', 'b', 'b 0', 'b 1', 'b MID', 'b LAST', 'b LEN', 'b LEN1', 'b x', 'h', 'zzz', '']
+D15 = ['n', 'p', 'r', 's', 'b', 'b 0', 'b 1', 'b MID', 'b LAST', 'b LEN', 'b LEN1', 'b x', 'h', 'zzz', '', 'exit']
 D7 = ['n', 'p', 'r', 's', 'b', 'b 1', 'b LEN']
 D18 = D15 + ['next', 'previous', 'state']
 
